@@ -158,6 +158,19 @@ func (b *builder) scenarios(seed uint64) []*scenario {
 		add(&scenario{Name: "only-short-lived-ca-secret", Class: "partial:only-ca-secret", Cfg: chartConv, world: w})
 	}
 
+	// 4c. a CA secret holding only HALF a certificate authority (the certificate without its key, or
+	// the key without its certificate): not a usable authority; whatever initialisation makes of it,
+	// what it stores is ONE consistent authority and the certificates it issues chain to it
+	for hi, half := range []string{"tls.crt", "tls.key"} {
+		w := newWorld(seed*100 + 25 + uint64(hi))
+		data := map[string][]byte{"tls.crt": b.own.CACrt}
+		if half == "tls.key" {
+			data = map[string][]byte{"tls.key": b.own.CAKey}
+		}
+		w.MustSeed("user", secretObj(chart.Namespace, chart.CASecret, data))
+		add(&scenario{Name: "ca-secret-with-only-" + half, Class: "partial:half-a-ca", Cfg: chartConv, world: w})
+	}
+
 	// 5. CA + server secret whose ca.crt key is missing; client secret absent; ESS certificate
 	{
 		w := newWorld(seed*100 + 6)
